@@ -6,8 +6,10 @@
 EXTENDS AmpLaw, Json, TLC
 
 dB == 1000000
-A(id, t, gmin, gmax, pmax, rip) == [id |-> id, typeDef |-> t, gainMin |-> gmin * dB, flatMax |-> gmax * dB,
-                                    pMax |-> pmax * dB, ripple |-> rip]
+\* fmin / fmax: the amplifier band (MHz) the LIBRARY ENTRY states (the default band unless the entry gives its own)
+AB(id, t, gmin, gmax, pmax, rip, fmin, fmax) == [id |-> id, typeDef |-> t, gainMin |-> gmin * dB, flatMax |-> gmax * dB,
+                                                 pMax |-> pmax * dB, ripple |-> rip, fmin |-> fmin, fmax |-> fmax]
+A(id, t, gmin, gmax, pmax, rip) == AB(id, t, gmin, gmax, pmax, rip, 191275000, 196125000)
 MCAmps == { A("std_medium_gain", "variable_gain", 15, 26, 23, 0),
             A("std_fixed_gain", "fixed_gain", 20, 21, 21, 0),
             A("openroadm_ila_standard", "openroadm", 0, 27, 22, 0),
@@ -16,7 +18,9 @@ MCAmps == { A("std_medium_gain", "variable_gain", 15, 26, 23, 0),
             A("high_detail_model_example", "advanced_model", 15, 25, 21, 1),
             A("medium+low_gain", "dual_stage", 25, 42, 23, 0),
             A("high_power", "variable_gain", 8, 16, 25, 0),
-            A("verif_vg", "variable_gain", 12, 22, 19, 0) }
+            A("verif_vg", "variable_gain", 12, 22, 19, 0),
+            \* an advanced_model entry that states its OWN, narrower band (its configuration file covers the default band)
+            AB("verif_adv_band", "advanced_model", 15, 25, 21, 1, 192000000, 195000000) }
 
 MCGainTargets(a) == {g \in {a.gainMin - 6 * dB, a.gainMin - 1 * dB, a.gainMin, (a.gainMin + a.flatMax) \div 2,
                             a.flatMax, a.flatMax + 2 * dB} : g >= 0}
@@ -25,8 +29,9 @@ MCGainTargets(a) == {g \in {a.gainMin - 6 * dB, a.gainMin - 1 * dB, a.gainMin, (
 Var(iv, ov, nin, nout, ramp, edge) == [inVoa |-> iv, outVoa |-> ov, nIn |-> nin, nOut |-> nout, ramp |-> ramp, edge |-> edge]
 MCVariants == {Var(0, 0, 16, 0, 0, 0), Var(1500000, 2 * dB, 12, 2, 0, 1), Var(0, 1 * dB, 12, 0, 1, 0), Var(0, 0, 1, 2, 0, 0)}
 MCTilts    == {0, 0 - 1500000}
-MCPinTots  == {0 - 25 * dB, 0 - 10 * dB, 0, 6 * dB, 12 * dB}
-MCPinTotsQuick == {0 - 25 * dB, 6 * dB, 12 * dB}
+\* total input powers from -25 dBm to +27 dBm: the last one is above the pMax of every amplifier (negative effective gain)
+MCPinTots  == {0 - 25 * dB, 0 - 10 * dB, 0, 6 * dB, 12 * dB, 27 * dB}
+MCPinTotsQuick == {0 - 25 * dB, 6 * dB, 27 * dB}
 
 Emit == Len(hist) < MaxCross \/ PrintT("@@" \o ToJson([amp |-> amp, set |-> set, hist |-> hist]))
 
@@ -93,4 +98,5 @@ ProbePadded    == \A k \in H : hist[k].regime # "padded"
 ProbeExtended  == \A k \in H : hist[k].regime # "extended"
 ProbePaddedSat == \A k \in H : ~(hist[k].regime = "padded" /\ hist[k].sat)
 ProbeRelief    == ~(Len(hist) >= 2 /\ hist[1].sat /\ ~hist[2].sat)
+ProbeNegativeGain == \A k \in H : hist[k].eff >= 0
 ==============================================================================
